@@ -81,6 +81,9 @@ def stmt_lines(kind, k, ref=None):
         return ['ac%d = [x + 1 async for x in agen(t(%d))]' % (k, k)]
     if kind == 'asyncdictcomp':
         return ['ad%d = {x: len([y async for y in agen(x)]) async for x in agen(t(%d))}' % (k, k)]
+    if kind == 'crprint':
+        # output with carriage returns (a progress line, a CRLF record): recorded exactly as written
+        return ['cr%d = print("p%%d\\rq" %% t(%d), end="\\r\\n")' % (k, k)]
     if kind == 'tripws':
         # a line of a string literal that ENDS IN BLANKS (significant: they are part of the value)
         return ['zw%d = """l1   ' % k, 'l2""" + str(t(%d))' % k]
@@ -109,7 +112,7 @@ def value_want(s):
 
 
 EXPR_KINDS = {'print', 'expr', 'strexpr', 'both', 'multiexpr', 'multiprint', 'awaitexpr'} | VALUE_KINDS
-SINGLE_LINE = {'kwcomment', 'skipcomment', 'raise', 'printraise', 'callraise', 'assign', 'print', 'expr', 'strexpr', 'both', 'print2', 'semicolon', 'await', 'awaitexpr', 'asynccomp', 'asyncdictcomp', 'comment',
+SINGLE_LINE = {'kwcomment', 'skipcomment', 'raise', 'printraise', 'callraise', 'assign', 'print', 'expr', 'strexpr', 'both', 'print2', 'semicolon', 'await', 'awaitexpr', 'asynccomp', 'asyncdictcomp', 'crprint', 'comment',
                'starimport', 'directive'} | VALUE_KINDS
 COMPOUND = {'compoundraise', 'compound', 'forloop', 'classdef', 'decorated', 'decorated2', 'asyncdef', 'deffn', 'with', 'corodef', 'gendef', 'agendef',
             'awaitabledef'}
@@ -501,7 +504,9 @@ def place_wants(prog, rng, prob=0.45, layout=True):
             continue
         if rng.random() < prob and not s.terminator:
             want = None
-            if acc.strip() and '\n\n' not in acc.strip('\n') and not acc.startswith('\n'):
+            if '\r' in acc:
+                pass      # (a carriage return cannot be written into a docstring line: no want is placed after such output)
+            elif acc.strip() and '\n\n' not in acc.strip('\n') and not acc.startswith('\n'):
                 want = acc.rstrip('\n').split('\n')
             elif not acc and value_want(s) is not None:
                 want = [value_want(s)]
